@@ -1,4 +1,533 @@
-//! C19 (to be filled in)
+//! C19: the rank-1 fast path of `interp_array_into` relabels identical types only.
+//!
+//! `Interp1D::interp_array_into` and `Interp2D::interp_array_into` call `cast_unchecked` when
+//! the query dimension type is `Ix1`. Built with `--cfg ndarray_interp_verif`, the crate counts
+//! these calls and records every call whose source and destination type differ.
+//!
+//! Part A enumerates every fast-path instantiation (data dimension type x element type x storage
+//! kind x interpolator). Each one runs the same three queries through the fast path (`Ix1` query),
+//! through the general per-element path (`IxDyn` query of runtime rank 1) and through single
+//! `interp` calls, and compares the three results bit for bit.
+//!
+//! Part B enumerates query dimension types that must NOT take the fast path and compares the
+//! batch result with single `interp` calls.
+//!
+//! Output fields of a `cast` line:
+//!  - `delta`: `cast_unchecked` calls during the batch call under test (A: fast path, B: general)
+//!  - `general_delta`: A: calls during the general-path batch call, B: calls during the single
+//!    `interp` calls; always expected to be 0
+//!  - `out_ty` / `want_ty`: `type_name` of the dimension type the buffer is cast from / to, with
+//!    blanks removed so that a line splits into `key=value` tokens
+//!  - `agree`: 1 iff every compared result has the same shape and the same bits
+
+use std::any::type_name;
+use std::panic::{catch_unwind, AssertUnwindSafe};
+
+use ndarray::{Array, ArrayViewD, DimAdd, Dimension, Ix0, Ix1, Ix2, Ix3, Ix4, Ix5, Ix6, IxDyn};
+use ndarray_interp::interp1d::Interp1DBuilder;
+use ndarray_interp::interp2d::Interp2DBuilder;
+use ndarray_interp::verif_hooks::{cast_count, cast_mismatches};
+
+/// element types of the enumeration: test values and a bit-exact image
+trait Elem: Copy + 'static {
+    fn bits(self) -> u64;
+    /// data value at flat (row-major) position `i`
+    fn datum(i: usize) -> Self;
+    /// `i`-th query along the first interpolated axis, inside `[0, 2]`
+    fn qx(i: usize) -> Self;
+    /// `i`-th query along the second interpolated axis, inside `[0, 2]`
+    fn qy(i: usize) -> Self;
+}
+
+macro_rules! impl_elem_float {
+    ($t:ty) => {
+        impl Elem for $t {
+            fn bits(self) -> u64 {
+                self.to_bits() as u64
+            }
+            fn datum(i: usize) -> Self {
+                ((i * 37 % 101) as f64 * 0.173 - 3.1 + i as f64 / 7.0) as $t
+            }
+            fn qx(i: usize) -> Self {
+                [0.37, 1.0, 1.9, 0.0, 2.0, 1.5][i % 6]
+            }
+            fn qy(i: usize) -> Self {
+                [1.61, 0.25, 2.0, 1.0, 0.5, 0.77][i % 6]
+            }
+        }
+    };
+}
+
+// integers: even data on the default index axes 0, 1, 2 and queries that hit knots, so every
+// intermediate value of the linear formula is an exact integer
+macro_rules! impl_elem_int {
+    ($t:ty) => {
+        impl Elem for $t {
+            fn bits(self) -> u64 {
+                self as i64 as u64
+            }
+            fn datum(i: usize) -> Self {
+                2 * ((i * 7) % 11) as $t - 6
+            }
+            fn qx(i: usize) -> Self {
+                [0, 1, 2, 1, 2, 0][i % 6]
+            }
+            fn qy(i: usize) -> Self {
+                [2, 0, 1, 1, 0, 2][i % 6]
+            }
+        }
+    };
+}
+
+impl_elem_float!(f64);
+impl_elem_float!(f32);
+impl_elem_int!(i32);
+impl_elem_int!(i64);
+
+/// shape and bit image of an array in logical order
+#[derive(Debug, PartialEq, Eq)]
+struct Flat {
+    shape: Vec<usize>,
+    bits: Vec<u64>,
+}
+
+fn flat<T: Elem>(a: ArrayViewD<'_, T>) -> Flat {
+    Flat {
+        shape: a.shape().to_vec(),
+        bits: a.iter().map(|v| v.bits()).collect(),
+    }
+}
+
+/// the single-query results stacked in query order: what the batch result has to equal
+struct Stack {
+    query_shape: Vec<usize>,
+    item_shape: Option<Vec<usize>>,
+    bits: Vec<u64>,
+    consistent: bool,
+}
+
+impl Stack {
+    fn new(query_shape: &[usize]) -> Self {
+        Stack {
+            query_shape: query_shape.to_vec(),
+            item_shape: None,
+            bits: Vec::new(),
+            consistent: true,
+        }
+    }
+
+    fn push(&mut self, item: Flat) {
+        match &self.item_shape {
+            None => self.item_shape = Some(item.shape),
+            Some(s) => self.consistent &= *s == item.shape,
+        }
+        self.bits.extend(item.bits);
+    }
+
+    fn finish(self) -> Option<Flat> {
+        let mut shape = self.query_shape;
+        shape.extend(self.item_shape?);
+        self.consistent.then_some(Flat {
+            shape,
+            bits: self.bits,
+        })
+    }
+}
+
+/// `interp_axes` leading axes of length 3, every trailing axis of length 2; dynamic rank: 3
+fn data_shape(ndim: Option<usize>, interp_axes: usize) -> Vec<usize> {
+    (0..ndim.unwrap_or(3))
+        .map(|ax| if ax < interp_axes { 3 } else { 2 })
+        .collect()
+}
+
+fn make<T: Elem, D: Dimension>(shape: &[usize], value: fn(usize) -> T) -> Array<T, D> {
+    let len = shape.iter().product();
+    Array::from_shape_vec(IxDyn(shape), (0..len).map(value).collect())
+        .expect("shape")
+        .into_dimensionality::<D>()
+        .expect("rank")
+}
+
+fn tn<T>() -> String {
+    type_name::<T>().replace(' ', "")
+}
+
+struct Id {
+    interp: &'static str,
+    t: &'static str,
+    storage: &'static str,
+    d: &'static str,
+    dq: &'static str,
+}
+
+/// what one instantiation observed
+struct Outcome {
+    delta: usize,
+    general_delta: usize,
+    /// `cast_unchecked` calls outside the two counted windows; 0 expected
+    stray_delta: usize,
+    batch: Flat,
+    /// part A only: the same queries through the general path
+    general: Option<Flat>,
+    singles: Option<Flat>,
+}
+
+#[derive(Default)]
+struct Report {
+    lines: usize,
+    failures: usize,
+}
+
+impl Report {
+    fn record(
+        &mut self,
+        id: Id,
+        tys: Option<(String, String)>,
+        expected: usize,
+        mismatches_before: usize,
+        res: std::thread::Result<Outcome>,
+    ) {
+        self.lines += 1;
+        let head = format!(
+            "interp={} T={} storage={} D={} Dq={}",
+            id.interp, id.t, id.storage, id.d, id.dq
+        );
+        let mut reasons: Vec<String> = Vec::new();
+        let fields = match res {
+            Err(payload) => {
+                let msg = payload
+                    .downcast_ref::<String>()
+                    .cloned()
+                    .or_else(|| payload.downcast_ref::<&str>().map(|s| s.to_string()))
+                    .unwrap_or_else(|| "?".into());
+                let msg: String = msg.split_whitespace().collect::<Vec<_>>().join("_");
+                reasons.push(format!("panic:{msg}"));
+                format!("{head} panic=1")
+            }
+            Ok(o) => {
+                let (out_ty, want_ty) = tys.unwrap_or_else(|| ("-".into(), "-".into()));
+                let agree = o.singles.as_ref() == Some(&o.batch)
+                    && o.general.as_ref().is_none_or(|g| *g == o.batch);
+                if o.delta != expected {
+                    reasons.push(format!("delta:{}!={expected}", o.delta));
+                }
+                if o.general_delta != 0 {
+                    reasons.push(format!("general_delta:{}", o.general_delta));
+                }
+                if o.stray_delta != 0 {
+                    reasons.push(format!("stray_delta:{}", o.stray_delta));
+                }
+                if out_ty != want_ty {
+                    reasons.push("out_ty!=want_ty".into());
+                }
+                if !agree {
+                    if o.singles.is_none() {
+                        reasons.push("single_shapes_differ".into());
+                    } else if o.singles.as_ref() != Some(&o.batch) {
+                        reasons.push("batch!=single".into());
+                    }
+                    if o.general.as_ref().is_some_and(|g| *g != o.batch) {
+                        reasons.push("fast!=general".into());
+                    }
+                }
+                format!(
+                    "{head} delta={} general_delta={} out_ty={out_ty} want_ty={want_ty} agree={}",
+                    o.delta, o.general_delta, agree as u8
+                )
+            }
+        };
+        let new_mismatches = cast_mismatches().len() - mismatches_before;
+        if new_mismatches != 0 {
+            reasons.push(format!("hook_mismatches:{new_mismatches}"));
+        }
+        println!("cast {fields}");
+        if !reasons.is_empty() {
+            self.failures += 1;
+            println!("FAIL {fields} reason={}", reasons.join(","));
+        }
+    }
+}
+
+/// bind `$name` to `$base` in the requested storage kind
+macro_rules! storage {
+    (owned, $base:ident => $name:ident) => {
+        let $name = $base.clone();
+    };
+    (view, $base:ident => $name:ident) => {
+        let $name = $base.view();
+    };
+    (shared, $base:ident => $name:ident) => {
+        let $name = $base.to_shared();
+    };
+}
+
+macro_rules! a1d {
+    ($rep:ident, $T:ty, $stor:ident, $D:ty, $dname:literal) => {{
+        fn run(rep: &mut Report) {
+            let id = Id {
+                interp: "1d",
+                t: stringify!($T),
+                storage: stringify!($stor),
+                d: $dname,
+                dq: "Ix1",
+            };
+            let tys = (
+                tn::<<Ix1 as DimAdd<<$D as Dimension>::Smaller>>::Output>(),
+                tn::<$D>(),
+            );
+            let before = cast_mismatches().len();
+            let res = catch_unwind(AssertUnwindSafe(|| {
+                let shape = data_shape(<$D as Dimension>::NDIM, 1);
+                let base: Array<$T, $D> = make(&shape, <$T as Elem>::datum);
+                let qbase: Array<$T, Ix1> = make(&[3], <$T as Elem>::qx);
+                storage!($stor, base => data);
+                storage!($stor, qbase => query);
+                let interp = Interp1DBuilder::new(data).build().expect("build");
+                let start = cast_count();
+                let c0 = cast_count();
+                let fast = interp.interp_array(&query).expect("fast path");
+                let c1 = cast_count();
+                let query_dyn = query.clone().into_dyn();
+                let c2 = cast_count();
+                let general = interp.interp_array(&query_dyn).expect("general path");
+                let c3 = cast_count();
+                let mut singles = Stack::new(&[3]);
+                for &q in qbase.iter() {
+                    let one = interp.interp(q).expect("single query");
+                    singles.push(flat(one.view().into_dyn()));
+                }
+                let end = cast_count();
+                Outcome {
+                    delta: c1 - c0,
+                    general_delta: c3 - c2,
+                    stray_delta: (end - start) - (c1 - c0) - (c3 - c2),
+                    batch: flat(fast.view().into_dyn()),
+                    general: Some(flat(general.view().into_dyn())),
+                    singles: singles.finish(),
+                }
+            }));
+            rep.record(id, Some(tys), 2, before, res);
+        }
+        run($rep);
+    }};
+}
+
+macro_rules! a2d {
+    ($rep:ident, $T:ty, $stor:ident, $D:ty, $dname:literal) => {{
+        fn run(rep: &mut Report) {
+            let id = Id {
+                interp: "2d",
+                t: stringify!($T),
+                storage: stringify!($stor),
+                d: $dname,
+                dq: "Ix1",
+            };
+            let tys = (
+                tn::<<Ix1 as DimAdd<<<$D as Dimension>::Smaller as Dimension>::Smaller>>::Output>(),
+                tn::<<$D as Dimension>::Smaller>(),
+            );
+            let before = cast_mismatches().len();
+            let res = catch_unwind(AssertUnwindSafe(|| {
+                let shape = data_shape(<$D as Dimension>::NDIM, 2);
+                let base: Array<$T, $D> = make(&shape, <$T as Elem>::datum);
+                let xbase: Array<$T, Ix1> = make(&[3], <$T as Elem>::qx);
+                let ybase: Array<$T, Ix1> = make(&[3], <$T as Elem>::qy);
+                storage!($stor, base => data);
+                storage!($stor, xbase => xs);
+                storage!($stor, ybase => ys);
+                let interp = Interp2DBuilder::new(data).build().expect("build");
+                let start = cast_count();
+                let c0 = cast_count();
+                let fast = interp.interp_array(&xs, &ys).expect("fast path");
+                let c1 = cast_count();
+                let xs_dyn = xs.clone().into_dyn();
+                let ys_dyn = ys.clone().into_dyn();
+                let c2 = cast_count();
+                let general = interp.interp_array(&xs_dyn, &ys_dyn).expect("general path");
+                let c3 = cast_count();
+                let mut singles = Stack::new(&[3]);
+                for (&x, &y) in xbase.iter().zip(ybase.iter()) {
+                    let one = interp.interp(x, y).expect("single query");
+                    singles.push(flat(one.view().into_dyn()));
+                }
+                let end = cast_count();
+                Outcome {
+                    delta: c1 - c0,
+                    general_delta: c3 - c2,
+                    stray_delta: (end - start) - (c1 - c0) - (c3 - c2),
+                    batch: flat(fast.view().into_dyn()),
+                    general: Some(flat(general.view().into_dyn())),
+                    singles: singles.finish(),
+                }
+            }));
+            rep.record(id, Some(tys), 3, before, res);
+        }
+        run($rep);
+    }};
+}
+
+macro_rules! b1d {
+    ($rep:ident, $Dq:ty, $dqname:literal, $qshape:expr, $D:ty, $dname:literal) => {{
+        fn run(rep: &mut Report) {
+            let id = Id {
+                interp: "1d",
+                t: "f64",
+                storage: "owned",
+                d: $dname,
+                dq: $dqname,
+            };
+            let before = cast_mismatches().len();
+            let res = catch_unwind(AssertUnwindSafe(|| {
+                let qshape: &[usize] = &$qshape;
+                let shape = data_shape(<$D as Dimension>::NDIM, 1);
+                let data: Array<f64, $D> = make(&shape, <f64 as Elem>::datum);
+                let query: Array<f64, $Dq> = make(qshape, <f64 as Elem>::qx);
+                let interp = Interp1DBuilder::new(data).build().expect("build");
+                let c0 = cast_count();
+                let batch = interp.interp_array(&query).expect("general path");
+                let c1 = cast_count();
+                let mut singles = Stack::new(qshape);
+                for &q in query.iter() {
+                    let one = interp.interp(q).expect("single query");
+                    singles.push(flat(one.view().into_dyn()));
+                }
+                let c2 = cast_count();
+                Outcome {
+                    delta: c1 - c0,
+                    general_delta: c2 - c1,
+                    stray_delta: 0,
+                    batch: flat(batch.view().into_dyn()),
+                    general: None,
+                    singles: singles.finish(),
+                }
+            }));
+            rep.record(id, None, 0, before, res);
+        }
+        run($rep);
+    }};
+}
+
+macro_rules! b2d {
+    ($rep:ident, $Dq:ty, $dqname:literal, $qshape:expr, $D:ty, $dname:literal) => {{
+        fn run(rep: &mut Report) {
+            let id = Id {
+                interp: "2d",
+                t: "f64",
+                storage: "owned",
+                d: $dname,
+                dq: $dqname,
+            };
+            let before = cast_mismatches().len();
+            let res = catch_unwind(AssertUnwindSafe(|| {
+                let qshape: &[usize] = &$qshape;
+                let shape = data_shape(<$D as Dimension>::NDIM, 2);
+                let data: Array<f64, $D> = make(&shape, <f64 as Elem>::datum);
+                let xs: Array<f64, $Dq> = make(qshape, <f64 as Elem>::qx);
+                let ys: Array<f64, $Dq> = make(qshape, <f64 as Elem>::qy);
+                let interp = Interp2DBuilder::new(data).build().expect("build");
+                let c0 = cast_count();
+                let batch = interp.interp_array(&xs, &ys).expect("general path");
+                let c1 = cast_count();
+                let mut singles = Stack::new(qshape);
+                for (&x, &y) in xs.iter().zip(ys.iter()) {
+                    let one = interp.interp(x, y).expect("single query");
+                    singles.push(flat(one.view().into_dyn()));
+                }
+                let c2 = cast_count();
+                Outcome {
+                    delta: c1 - c0,
+                    general_delta: c2 - c1,
+                    stray_delta: 0,
+                    batch: flat(batch.view().into_dyn()),
+                    general: None,
+                    singles: singles.finish(),
+                }
+            }));
+            rep.record(id, None, 0, before, res);
+        }
+        run($rep);
+    }};
+}
+
+/// `$m!($args.., D, "D")` for every data dimension type of `Interp1D`
+macro_rules! each_d_1d {
+    ($m:ident, $($args:tt)*) => {
+        $m!($($args)*, Ix1, "Ix1");
+        $m!($($args)*, Ix2, "Ix2");
+        $m!($($args)*, Ix3, "Ix3");
+        $m!($($args)*, Ix4, "Ix4");
+        $m!($($args)*, Ix5, "Ix5");
+        $m!($($args)*, Ix6, "Ix6");
+        $m!($($args)*, IxDyn, "IxDyn");
+    };
+}
+
+/// `$m!($args.., D, "D")` for every data dimension type of `Interp2D`
+macro_rules! each_d_2d {
+    ($m:ident, $($args:tt)*) => {
+        $m!($($args)*, Ix2, "Ix2");
+        $m!($($args)*, Ix3, "Ix3");
+        $m!($($args)*, Ix4, "Ix4");
+        $m!($($args)*, Ix5, "Ix5");
+        $m!($($args)*, Ix6, "Ix6");
+        $m!($($args)*, IxDyn, "IxDyn");
+    };
+}
+
+macro_rules! each_storage {
+    ($m:ident, $each_d:ident, $rep:ident, $T:ty) => {
+        $each_d!($m, $rep, $T, owned);
+        $each_d!($m, $rep, $T, view);
+        $each_d!($m, $rep, $T, shared);
+    };
+}
+
+macro_rules! each_elem {
+    ($m:ident, $each_d:ident, $rep:ident) => {
+        each_storage!($m, $each_d, $rep, f64);
+        each_storage!($m, $each_d, $rep, f32);
+        each_storage!($m, $each_d, $rep, i32);
+        each_storage!($m, $each_d, $rep, i64);
+    };
+}
+
+macro_rules! each_dq {
+    ($m:ident, $each_d:ident, $rep:ident) => {
+        $each_d!($m, $rep, Ix0, "Ix0", []);
+        $each_d!($m, $rep, Ix2, "Ix2", [2, 2]);
+        $each_d!($m, $rep, Ix3, "Ix3", [2, 1, 2]);
+        $each_d!($m, $rep, IxDyn, "IxDyn1", [3]);
+        $each_d!($m, $rep, IxDyn, "IxDyn2", [2, 2]);
+    };
+}
+
+fn part_a_1d(rep: &mut Report) {
+    each_elem!(a1d, each_d_1d, rep);
+}
+
+fn part_a_2d(rep: &mut Report) {
+    each_elem!(a2d, each_d_2d, rep);
+}
+
+fn part_b_1d(rep: &mut Report) {
+    each_dq!(b1d, each_d_1d, rep);
+}
+
+fn part_b_2d(rep: &mut Report) {
+    each_dq!(b2d, each_d_2d, rep);
+}
+
 pub fn main() {
-    println!("SUMMARY casts=0 failures=0");
+    let mut rep = Report::default();
+    part_a_1d(&mut rep);
+    part_a_2d(&mut rep);
+    part_b_1d(&mut rep);
+    part_b_2d(&mut rep);
+    let mismatches = cast_mismatches();
+    println!("mismatches={}", mismatches.len());
+    for m in &mismatches {
+        println!("MISMATCH {m}");
+    }
+    println!("SUMMARY casts={} failures={}", rep.lines, rep.failures);
 }
